@@ -32,6 +32,7 @@ func (c12) Cases(tier string) int {
 
 func (c12) Thresholds(tier string) map[string]int64 {
 	return map[string]int64{
+		"program-whose-Start-node-is-not-first":     100,
 		"end-by-stop":                               500,
 		"end-by-node-end":                           500,
 		"stop-with-statements-left":                 300,
@@ -64,6 +65,7 @@ var extraArgs = []int{0, 1, -1, 7, int(^uint(0) >> 1), -int(^uint(0)>>1) - 1, 2,
 
 func (p c12) Run(c *core.Ctx) {
 	cfg := gen.DefaultFlow()
+	cfg.StartNotFirst = true
 	cfg.WStop = 9
 	cfg.WJump = 3
 	cfg.WOptions = 22
@@ -80,6 +82,7 @@ func (p c12) Run(c *core.Ctx) {
 		return
 	}
 	prog := gen.Flow(c.R, cfg)
+	shapeFeatures(c, prog)
 	scripts := hast.Render(prog, hast.L0())
 	maxPaths := 8
 	if c.Thorough() {
